@@ -1,1 +1,323 @@
-fn main() { eprintln!("not built yet"); std::process::exit(2); }
+//! E-STRUCT: deterministic simulation of ckb's sync bookkeeping structures (property C17).
+//!
+//! Four scenario kinds, each a seeded, explicit operation list executed against the REAL
+//! structure from /repo and a trivial reference model, compared after every operation:
+//!
+//! * `orphan`    — `ckb_chain::verif::OrphanBlockPool` vs `Map<hash,(parent,epoch)>`
+//! * `inflight`  — `ckb_sync` `InflightBlocks` on the faketime clock vs two plain maps
+//! * `headermap` — `ckb_shared::HeaderMap` (real sled backend, spills placed by the simulator)
+//!   vs `HashMap`
+//! * `ancestor`  — `HeaderIndexView::{build_skip,get_ancestor}` vs walking parent links
+//! * `locator`   — `ActiveChain::{get_locator,get_ancestor}` on a real `SyncShared` vs walking
+//!   parent links
+//!
+//! Every run is a pure function of its scenario. Verdicts and the event-log hash use only
+//! order-independent (sorted) observations, so `HashMap` `RandomState` never matters.
+
+mod ancestor;
+mod headermap;
+mod inflight;
+mod locator;
+mod orphan;
+
+use ckb_types::{packed::Byte32, prelude::*};
+use serde::{Deserialize, Serialize};
+use simcore::*;
+use std::collections::{BTreeMap, BTreeSet};
+use std::path::{Path, PathBuf};
+
+pub const PROP: &str = "C17";
+pub const ENGINE: &str = "simstruct";
+
+#[derive(Clone, Debug, Serialize, Deserialize)]
+#[serde(tag = "kind", rename_all = "lowercase")]
+pub enum Scenario {
+    Orphan(orphan::Sc),
+    Inflight(inflight::Sc),
+    Headermap(headermap::Sc),
+    Ancestor(ancestor::Sc),
+    Locator(locator::Sc),
+}
+
+/// fake 32-byte hash of a small integer in a name space; spread so that neither hash-map
+/// placement nor BTreeMap order follows the ids
+pub fn h32(space: u64, id: u64) -> Byte32 {
+    let mut r = Rng::new(id.wrapping_mul(0x9E37_79B9).wrapping_add(space.wrapping_mul(0xABCD_EF01_2345)));
+    let b = r.bytes(32);
+    Byte32::from_slice(&b).expect("32 bytes")
+}
+
+pub struct Ctx {
+    pub res: RunResult,
+    pub log: Fnv,
+    pub il: Fnv,
+}
+impl Ctx {
+    pub fn new(seed: u64) -> Self {
+        Ctx {
+            res: RunResult {
+                seed,
+                ..Default::default()
+            },
+            log: Fnv::new(),
+            il: Fnv::new(),
+        }
+    }
+    pub fn ev(&mut self, s: &str) {
+        self.log.write_str(s);
+    }
+    pub fn viol(&mut self, class: &str, detail: String) {
+        if self.res.violation.is_none() {
+            self.res.violation = Some(Violation {
+                property: PROP.into(),
+                class: class.into(),
+                detail,
+            });
+        }
+    }
+    pub fn failed(&self) -> bool {
+        self.res.violation.is_some() || self.res.harness_error.is_some()
+    }
+    pub fn finish(mut self) -> RunResult {
+        self.res.log_hash = self.log.finish();
+        self.res.interleaving = self.il.finish();
+        self.res.states.sort_unstable();
+        self.res.states.dedup();
+        self.res
+    }
+}
+
+thread_local! {
+    pub static QUIET_PANIC: std::cell::Cell<bool> = const { std::cell::Cell::new(false) };
+}
+
+/// run a call into the real code; a panic inside it (debug assertion, expect) is reported as
+/// a violation of the given class by the caller
+pub fn guarded<T>(f: impl FnOnce() -> T) -> Result<T, String> {
+    QUIET_PANIC.with(|q| q.set(true));
+    let r = std::panic::catch_unwind(std::panic::AssertUnwindSafe(f));
+    QUIET_PANIC.with(|q| q.set(false));
+    r.map_err(|e| {
+        if let Some(s) = e.downcast_ref::<String>() {
+            s.clone()
+        } else if let Some(s) = e.downcast_ref::<&str>() {
+            s.to_string()
+        } else {
+            "panic".to_string()
+        }
+    })
+}
+
+fn scratch_root() -> PathBuf {
+    let base = if Path::new("/dev/shm").is_dir() {
+        PathBuf::from("/dev/shm")
+    } else {
+        std::env::temp_dir()
+    };
+    base.join(format!("verif-struct-{}", std::process::id()))
+}
+
+pub fn gen_scenario(kind: &str, seed: u64) -> Scenario {
+    match kind {
+        "orphan" => Scenario::Orphan(orphan::generate(seed)),
+        "inflight" => Scenario::Inflight(inflight::generate(seed)),
+        "headermap" => Scenario::Headermap(headermap::generate(seed)),
+        "ancestor" => Scenario::Ancestor(ancestor::generate(seed)),
+        "locator" => Scenario::Locator(locator::generate(seed)),
+        _ => panic!("unknown kind {kind} (orphan|inflight|headermap|ancestor|locator)"),
+    }
+}
+
+pub fn exec_scenario(sc: &Scenario, root: &Path) -> RunResult {
+    match sc {
+        Scenario::Orphan(s) => orphan::exec(s),
+        Scenario::Inflight(s) => inflight::exec(s),
+        Scenario::Headermap(s) => headermap::exec(s, root),
+        Scenario::Ancestor(s) => ancestor::exec(s),
+        Scenario::Locator(s) => locator::exec(s, root),
+    }
+}
+
+#[derive(Serialize, Deserialize)]
+struct WorkerOut {
+    batch: BatchResult,
+    inter: Vec<u64>,
+    state: Vec<u64>,
+    nontrivial: Vec<u64>,
+}
+
+/// per-thread partial aggregate: keeps the channel of `parallel_seeds` empty of bulky values
+#[derive(Default)]
+struct Partial {
+    batch: BatchResult,
+    /// failing runs by seed (the 50 smallest seeds are kept)
+    failed: BTreeMap<u64, FailedRun>,
+    /// seeds of small non-trivial passing runs (the 3 smallest are kept)
+    sample_seeds: BTreeSet<u64>,
+}
+
+fn run_batch(kind: &str, lo: u64, hi: u64, threads: usize, root: &Path) -> BatchResult {
+    use std::sync::Mutex;
+    use std::sync::atomic::{AtomicUsize, Ordering};
+    let threads = threads.max(1);
+    let slots: Vec<Mutex<Partial>> = (0..threads).map(|_| Mutex::new(Partial::default())).collect();
+    let next_slot = AtomicUsize::new(0);
+    thread_local! {
+        static SLOT: std::cell::Cell<usize> = const { std::cell::Cell::new(usize::MAX) };
+    }
+    // a previous batch on this (main) thread may have left a slot number behind
+    SLOT.with(|s| s.set(usize::MAX));
+    parallel_seeds(
+        lo,
+        hi,
+        threads,
+        |seed| {
+            let slot = SLOT.with(|s| {
+                if s.get() == usize::MAX {
+                    s.set(next_slot.fetch_add(1, Ordering::Relaxed) % threads);
+                }
+                s.get()
+            });
+            let sc = gen_scenario(kind, seed);
+            let mut res = exec_scenario(&sc, root);
+            let mut p = slots[slot].lock().unwrap();
+            if let Some(v) = res.violation.take() {
+                p.failed.insert(
+                    seed,
+                    FailedRun {
+                        seed,
+                        violation: v,
+                        scenario: serde_json::to_value(&sc).unwrap(),
+                    },
+                );
+                if p.failed.len() > 50 {
+                    p.failed.pop_last();
+                }
+            } else if res.nontrivial && res.steps <= 40 {
+                p.sample_seeds.insert(seed);
+                if p.sample_seeds.len() > 3 {
+                    p.sample_seeds.pop_last();
+                }
+            }
+            p.batch.absorb(&res, || serde_json::Value::Null);
+        },
+        |_, ()| {},
+    );
+    let mut batch = BatchResult::new(ENGINE);
+    let mut failed: BTreeMap<u64, FailedRun> = BTreeMap::new();
+    let mut sample_seeds: BTreeSet<u64> = BTreeSet::new();
+    for s in slots {
+        let p = s.into_inner().unwrap();
+        batch.merge(p.batch);
+        failed.extend(p.failed);
+        sample_seeds.extend(p.sample_seeds);
+    }
+    batch.violations = failed.into_values().take(50).collect();
+    batch.samples = sample_seeds
+        .into_iter()
+        .take(3)
+        .map(|seed| serde_json::to_value(gen_scenario(kind, seed)).unwrap())
+        .collect();
+    batch
+}
+
+/// `InflightBlocks` reads the process-global faketime clock, so two inflight runs must never
+/// overlap inside one process: the batch is split over single-threaded worker processes.
+fn run_batch_in_workers(kind: &str, lo: u64, hi: u64, workers: usize) -> BatchResult {
+    let n = hi.saturating_sub(lo);
+    let workers = (workers.max(1) as u64).min(n.max(1));
+    let exe = std::env::current_exe().expect("current_exe");
+    let mut children = Vec::new();
+    for w in 0..workers {
+        let a = lo + n * w / workers;
+        let b = lo + n * (w + 1) / workers;
+        let child = std::process::Command::new(&exe)
+            .args(["batch-worker", "--kind", kind, "--seeds", &format!("{a}..{b}")])
+            .stdout(std::process::Stdio::piped())
+            .spawn()
+            .expect("spawn worker");
+        children.push(child);
+    }
+    let mut batch = BatchResult::new(ENGINE);
+    for child in children {
+        let out = child.wait_with_output().expect("worker output");
+        let text = String::from_utf8_lossy(&out.stdout);
+        let line = text.lines().rev().find(|l| l.trim_start().starts_with('{'));
+        match line.and_then(|l| serde_json::from_str::<WorkerOut>(l).ok()) {
+            Some(w) => {
+                let mut b = w.batch;
+                b.inter_set = w.inter.into_iter().collect::<BTreeSet<u64>>();
+                b.state_set = w.state.into_iter().collect();
+                b.nontrivial_set = w.nontrivial.into_iter().collect();
+                batch.merge(b);
+            }
+            None => batch
+                .harness_errors
+                .push(format!("worker exited {:?} without a result", out.status.code())),
+        }
+    }
+    batch
+}
+
+fn main() {
+    let args: Vec<String> = std::env::args().collect();
+    let mode = args.get(1).map(|s| s.as_str()).unwrap_or("");
+    let default_hook = std::panic::take_hook();
+    std::panic::set_hook(Box::new(move |info| {
+        if !QUIET_PANIC.with(|q| q.get()) {
+            default_hook(info);
+        }
+    }));
+    let root = scratch_root();
+    // SharedBuilder::with_temp_db (locator kind) puts its RocksDB under std::env::temp_dir()
+    // and never removes it: point it into the scratch root, which is removed at exit
+    // SAFETY: no other thread exists yet
+    unsafe { std::env::set_var("TMPDIR", &root) };
+    let kind = arg_value(&args, "--kind").unwrap_or_else(|| "orphan".into());
+    let code = match mode {
+        "gen" => {
+            let seed: u64 = arg_value(&args, "--seed").unwrap().parse().unwrap();
+            let sc = gen_scenario(&kind, seed);
+            println!("{}", serde_json::to_string_pretty(&sc).unwrap());
+            0
+        }
+        "exec" => {
+            let path = arg_value(&args, "--scenario").unwrap();
+            let sc: Scenario = serde_json::from_str(&std::fs::read_to_string(path).unwrap()).unwrap();
+            let res = exec_scenario(&sc, &root);
+            println!("{}", serde_json::to_string(&res).unwrap());
+            0
+        }
+        "batch" => {
+            let (lo, hi) = parse_seed_range(&arg_value(&args, "--seeds").unwrap());
+            let threads: usize = arg_value(&args, "--threads").map(|s| s.parse().unwrap()).unwrap_or(16);
+            let mut batch = if kind == "inflight" {
+                run_batch_in_workers(&kind, lo, hi, threads)
+            } else {
+                run_batch(&kind, lo, hi, threads, &root)
+            };
+            batch.finish();
+            println!("{}", serde_json::to_string(&batch).unwrap());
+            0
+        }
+        "batch-worker" => {
+            let (lo, hi) = parse_seed_range(&arg_value(&args, "--seeds").unwrap());
+            let mut batch = run_batch(&kind, lo, hi, 1, &root);
+            batch.finish();
+            let out = WorkerOut {
+                inter: batch.inter_set.iter().copied().collect(),
+                state: batch.state_set.iter().copied().collect(),
+                nontrivial: batch.nontrivial_set.iter().copied().collect(),
+                batch,
+            };
+            println!("{}", serde_json::to_string(&out).unwrap());
+            0
+        }
+        _ => {
+            eprintln!("usage: simstruct gen --kind K --seed S | exec --scenario FILE | batch --kind K --seeds a..b --threads N   (K = orphan|inflight|headermap|ancestor|locator)");
+            2
+        }
+    };
+    let _ = std::fs::remove_dir_all(&root);
+    std::process::exit(code);
+}
